@@ -216,14 +216,6 @@ def handle (ws : List String) : String :=
   | ["rq", "f", a, b, c] => rootsStr32 (solveQuadratic Float32.sqrt (ff a) (ff b) (ff c)) 9
   | ["rn", "d", r, s, t] => rootsStr64 (solveNormalizedCubic F64 (fd r) (fd s) (fd t)) (cubicBranch (fd r) (fd s) (fd t))
   | ["rn", "f", r, s, t] => rootsStr32 (solveNormalizedCubic F32 (ff r) (ff s) (ff t)) (cubicBranch (ff r) (ff s) (ff t))
-  | ["rnS", "d", r, s, t] => rootsStr64 (solveNormalizedCubicStable F64 (fd r) (fd s) (fd t)) (cubicBranch (fd r) (fd s) (fd t))
-  | ["rnS", "f", r, s, t] => rootsStr32 (solveNormalizedCubicStable F32 (ff r) (ff s) (ff t)) (cubicBranch (ff r) (ff s) (ff t))
-  | ["rcS", "d", a, b, c, d] =>
-    let br := if fd a == 0 then 9 else cubicBranch (fd b / fd a) (fd c / fd a) (fd d / fd a)
-    rootsStr64 (solveCubicStable F64 (fd a) (fd b) (fd c) (fd d)) br
-  | ["rcS", "f", a, b, c, d] =>
-    let br := if ff a == 0 then 9 else cubicBranch (ff b / ff a) (ff c / ff a) (ff d / ff a)
-    rootsStr32 (solveCubicStable F32 (ff a) (ff b) (ff c) (ff d)) br
   | ["rc", "d", a, b, c, d] =>
     let br := if fd a == 0 then 9 else cubicBranch (fd b / fd a) (fd c / fd a) (fd d / fd a)
     rootsStr64 (solveCubic F64 (fd a) (fd b) (fd c) (fd d)) br
